@@ -31,7 +31,7 @@ BASIS = {'aig': AND_CLASS | {'INPUT', 'NOT', 'IFF'}, 'xaig': AND_CLASS | {'INPUT
 REQUIRED = {'mon:get_by_label.checked': 2000, 'mon:get_by_raw_truth_table.checked': 500,
             'mon:get_by_raw_truth_table_model.checked': 50, 'lookup:negated': 100, 'lookup:permuted': 100,
             'lookup:duplicate': 50, 'lookup:complementary_outputs': 20, 'entries:aig': 1000, 'entries:xaig': 1000,
-            'model:with_dont_cares': 30}
+            'model:with_dont_cares': 30, 'model:custom_size_metric': 20}
 
 CUR = {'ctx': None, 'case': None, 'db': None, 'index': None, 'sizes': {}}
 
@@ -232,9 +232,12 @@ def post_model_lookup(st, args, kwargs, result):
     excl = args[2] if len(args) > 2 else kwargs.get('exclusion_list')
     basis = _basis_of(db)
     idx = CUR['index'].get(basis)
-    if idx is None or excl is not None:
+    if idx is None:
         ctx.mon('get_by_raw_truth_table_model', 'skipped_domain')
         return
+    custom = excl is not None
+    if custom:
+        ctx.count('model:custom_size_metric')
     rows = [[(None if v is DontCare or v == DontCare else bool(v)) for v in r] for r in tt]
     free = [(j, k) for j, r in enumerate(rows) for k, v in enumerate(r) if v is None]
     if len(free) > 12:
@@ -255,7 +258,15 @@ def post_model_lookup(st, args, kwargs, result):
             rr[j][k] = v
         key, _, _, _ = normalise([tuple(r) for r in rr])
         if key in idx:
-            sz = _stored_size(db, basis, key)
+            if custom:
+                # caller-chosen size metric (gate types not to be counted), applied to what a plain lookup of the
+                # completion yields; counted here from the operand relation
+                with monitor.suspended():
+                    cc = db.get_by_raw_truth_table([list(r) for r in rr])
+                names = {getattr(t, 'name', str(t)) for t in excl}
+                sz = sum(1 for t, _ in refsem.net_of(cc).gates.values() if t not in names)
+            else:
+                sz = _stored_size(db, basis, key)
             if best is None or sz < best:
                 best = sz
     if result is None:
@@ -278,6 +289,9 @@ def post_model_lookup(st, args, kwargs, result):
                 V('disagrees_with_defined_entry', 'output %d at assignment %d is %r, model says %r' % (j, k, bool((ints[j] >> k) & 1), v))
                 return
     got = nontrivial_gates(net)
+    if custom:
+        names = {getattr(t, 'name', str(t)) for t in excl}
+        got = sum(1 for t, _ in net.gates.values() if t not in names)
     if best is None:
         V('returned_but_not_stored', 'no completion is stored but a circuit was returned')
     elif got > best:
@@ -453,7 +467,17 @@ def run_lookups(spec, ctx):
             model[j][k] = DontCare
         CUR['case'] = {'kind': 'model', 'db': name, 'table': [''.join('*' if v is DontCare else ('1' if v else '0') for v in r) for r in model]}
         try:
-            db.get_by_raw_truth_table_model(model)
+            r_ = rng.random()
+            if r_ < 0.6:
+                db.get_by_raw_truth_table_model(model)
+            else:
+                from cirbo.core.circuit import gate as G
+                excl = rng.choice([None, [], [G.INPUT], [G.INPUT, G.NOT], [G.NOT], [G.INPUT, G.NOT, G.AND], [G.INPUT, G.XOR]])
+                CUR['case'] = dict(CUR['case'], exclusion_list=None if excl is None else [t.name for t in excl])
+                if rng.random() < 0.5:
+                    db.get_by_raw_truth_table_model(model, exclusion_list=excl)
+                else:
+                    db.get_by_raw_truth_table_model(model, excl)
         except Exception as e:
             ctx.unexpected('CircuitsDatabase.get_by_raw_truth_table_model', e, CUR['case'])
             continue
@@ -481,4 +505,8 @@ def replay(case, ctx):
     elif case['kind'] == 'lookup':
         db.get_by_raw_truth_table([[ch == '1' for ch in r] for r in case['table']])
     else:
-        db.get_by_raw_truth_table_model([[DontCare if ch == '*' else ch == '1' for ch in r] for r in case['table']])
+        kw = {}
+        if 'exclusion_list' in case:
+            from cirbo.core.circuit import gate as G
+            kw['exclusion_list'] = None if case['exclusion_list'] is None else [getattr(G, t) for t in case['exclusion_list']]
+        db.get_by_raw_truth_table_model([[DontCare if ch == '*' else ch == '1' for ch in r] for r in case['table']], **kw)
